@@ -169,6 +169,11 @@ func MessageToPublish(msg *Message, version packets.Version) *packets.Publish {
 		if msg.ContentType != "" {
 			contentType = []byte(msg.ContentType)
 		}
+		// like the other optional properties: absent if empty (TotalBytes does not count it either)
+		var correlationData []byte
+		if len(msg.CorrelationData) != 0 {
+			correlationData = msg.CorrelationData
+		}
 		var responseTopic []byte
 		if msg.ResponseTopic != "" {
 			responseTopic = []byte(msg.ResponseTopic)
@@ -178,7 +183,7 @@ func MessageToPublish(msg *Message, version packets.Version) *packets.Publish {
 			payloadFormat = &e
 		}
 		pub.Properties = &packets.Properties{
-			CorrelationData:        msg.CorrelationData,
+			CorrelationData:        correlationData,
 			ContentType:            contentType,
 			MessageExpiry:          msgExpiry,
 			ResponseTopic:          responseTopic,
